@@ -365,6 +365,8 @@ class _View:
 def PENDING(b):
     """The pending attribute statement of a builder: tag (0 none, 1 field, 2 constant, 3 padding) and the statement's
     type / name / value - read off the stored callback (abstraction function of `_element_callback`)."""
+    if isinstance(b, _View) and "_ghost_pending" in b.__dict__:
+        return b._ghost_pending  # a specification-side view of a builder whose pending statement is given by ghost state
     cb = b._element_callback
     if smt():
         from pyvc import mutstate
@@ -407,7 +409,7 @@ def commit_clauses(s, doc):
     return commit_between(s.self, s.old, doc)
 
 
-def commit_between(new_b, old_b, doc, doc_kept=True):
+def commit_between(new_b, old_b, doc, doc_kept=True, flags_kept=True):
     """Effect of committing the pending statement of the pre-state (if any) with the given doc text: exactly one
     attribute, built from exactly that statement, appended to the list of its kind in the CURRENT section; nothing else
     moves."""
@@ -434,10 +436,12 @@ def commit_between(new_b, old_b, doc, doc_kept=True):
             EQ(LAST(cn._constants)._doc, doc),
             IMPLIES(NOT(is_string_value(p.value)), lambda: SAME(LAST(cn._constants)._value, p.value)))),
         "same-sections": len(new_secs) == len(old_secs),
-        "section-frame": dsb_unchanged(cn, co, "_fields", "_constants", *([] if doc_kept else ["_doc"])),
+        "section-frame": dsb_unchanged(cn, co, "_fields", "_constants", *(([] if doc_kept else ["_doc"]) + (
+            [] if flags_kept else ["_is_union", "_serialization_mode", "_bit_length_computed_at_least_once"]))),
         "other-sections-untouched": AND(*[dsb_unchanged(a, b) for a, b in zip(new_secs[:-1], old_secs[:-1])]),
-        "deprecated-unchanged": EQ(new_b._is_deprecated, old_b._is_deprecated),
     }
+    if flags_kept:
+        out["deprecated-unchanged"] = EQ(new_b._is_deprecated, old_b._is_deprecated)
     return out
 
 
@@ -1215,6 +1219,304 @@ class _VisitDirectiveWithout:
 
     def post(s):
         return _directive_visit_post(s, False)
+
+
+# ------------------------------------------------------------------------------------------------ level 4: the traversal
+import os as _os
+from pyvc import frontend as _frontend
+
+DRIVER_PATH = _os.path.join(_os.path.dirname(_os.path.abspath(__file__)), "drivers", "c03_driver.py")
+_frontend.register_extra_source("pydsdl._spec_c03_driver", DRIVER_PATH)
+DRV = "pydsdl._spec_c03_driver."
+
+inline_ok(PTP + ".generic_visit", PTP + ".visit_definition",
+          why="dispatch target on the root node: inlined, whatever it does is checked against the end-of-input requirement")
+
+GHOST = dict(g_eol=Int, g_open=Bool, g_tag=Int, g_type=ObjOf(SERIALIZABLE), g_name=Str, g_value=ObjOf(ANY), g_doc=Str,
+             g_hdr_open=Bool, g_hdr=Str, g_count=Int)
+
+
+def ghost_of(s):
+    """Ghost state of the specification (per source line, the documented rule):
+    eol       number of end-of-line nodes passed,
+    open      the last statement line was an attribute statement and neither a blank line nor another statement followed:
+              its doc window is still open; tag/T/name/value describe that statement, doc is its doc text so far
+              (same-line comment plus the comment-only lines that followed),
+    hdr_open  no statement and no blank line yet in this section: the comment block so far (hdr) is the section's header,
+    count     number of attribute statements seen so far."""
+    return _View(eol=s.g_eol, open=s.g_open, tag=s.g_tag, T=s.g_type, name=s.g_name, value=s.g_value, doc=s.g_doc,
+                 hdr_open=s.g_hdr_open, hdr=s.g_hdr, count=s.g_count)
+
+
+def _upd(g, **kw):
+    d = dict(g.__dict__)
+    d.update(kw)
+    return _View(**d)
+
+
+def total_committed(b):
+    t = 0
+    for sec in SECS(b):
+        t = t + LEN(sec._fields) + LEN(sec._constants)
+    return t
+
+
+def inv_clauses(p, g):
+    """INV: the processor + builder state mirrors the ghost state (nothing lost, nothing duplicated, the collected
+    comment is the doc text the rule assigns, the line counter is 1 + #end_of_line)."""
+    b = B(p)
+    pend = PENDING(b)
+    return {
+        "wf": WF_P(p),
+        "line-is-one-plus-eol": AND(p._current_line_number == 1 + g.eol, g.eol >= 0),
+        "pending-iff-window-open": IFF(NOT(pend.tag == T_NONE), g.open),
+        "pending-is-the-last-attribute-statement": IMPLIES(g.open, lambda: AND(
+            g.tag >= 1, g.tag <= 3, pend.tag == g.tag, SAME(pend.T, g.T),
+            IMPLIES(NOT(g.tag == T_PAD), lambda: EQ(pend.name, g.name)),
+            IMPLIES(g.tag == T_CONST, lambda: SAME(pend.value, g.value)))),
+        "collected-comment-is-its-doc": IMPLIES(g.open, lambda: AND(NOT(p._comment_is_header), EQ(p._comment, g.doc))),
+        "header-iff-header-window": IFF(p._comment_is_header, g.hdr_open),
+        "collected-comment-is-the-header": IMPLIES(g.hdr_open, lambda: EQ(p._comment, g.hdr)),
+        "every-statement-committed-or-pending-once": total_committed(b) + ITE(g.open, 1, 0) == g.count,
+    }
+
+
+def INV(p, g):
+    return AND(*inv_clauses(p, g).values())
+
+
+def _ghost_builder(old_b, g, secs=None):
+    """The pre-state builder with its pending statement described by the ghost state."""
+    tag = ITE(g.open, g.tag, 0)
+    return _View(_structs=(old_b._structs if secs is None else secs), _is_deprecated=old_b._is_deprecated,
+                 _ghost_pending=_View(tag=tag, T=g.T, name=g.name, value=g.value))
+
+
+def closing_clauses(s, g, flags_kept=True, marker=False):
+    """The doc window of the open statement (if any) closes on this line: the statement is committed exactly once, as
+    declared, with the doc text the rule assigned to it; a header window closes with the header text as section doc."""
+    nb, ob = B(s.pr), B(s.old_pr)
+    k = len(SECS(ob)) - 1
+    new_view = nb
+    if marker:
+        new_view = _View(_structs=(PyList([SECS(nb)[0]]) if smt() else [SECS(nb)[0]]), _element_callback=None,
+                         _is_deprecated=nb._is_deprecated)
+    out = {"closed:" + kk: v for kk, v in
+           commit_between(new_view, _ghost_builder(ob, g), g.doc, doc_kept=False, flags_kept=flags_kept).items()}
+    out["closed:header-doc-attached"] = IMPLIES(g.hdr_open, lambda: EQ(SECS(nb)[k]._doc, g.hdr))
+    out["closed:section-doc-kept"] = IMPLIES(NOT(g.hdr_open), lambda: EQ(SECS(nb)[k]._doc, SECS(ob)[k]._doc))
+    return out
+
+
+_DRV_INSTANCES = lambda: [
+    {"pr": MutObjOf(PTP)},
+    {"pr": MutObjOf(PTP, _statement_stream_processor=MutObjOf(DTB, _structs=ListK(MutObjOf(DSB), MutObjOf(DSB))))}]
+
+_ANY_DEFINITION_ERROR = {"InvalidDefinitionError": None}
+
+
+def _doc_of_line_comment(s):
+    return ITE(s.has_comment, strip_marker(s.comment_node.text), "")
+
+
+def _drv_params(**kw):
+    d = dict(kw)
+    d.update(GHOST)
+    return d
+
+
+@contract(DRV + "line_blank", props=P)
+class _DrvBlank:
+    params = _drv_params(line_node=NodeK)
+    instances = _DRV_INSTANCES
+    raises = _ANY_DEFINITION_ERROR
+
+    def pre(s):
+        return {"inv": INV(s.pr, ghost_of(s)), "the-line-is-empty": EQ(s.line_node.text, "")}
+
+    def post(s):
+        g = ghost_of(s)
+        out = inv_clauses(s.pr, _upd(g, open=False, hdr_open=False))
+        out.update(closing_clauses(s, g))
+        return out
+
+
+@contract(DRV + "line_comment_only", props=P)
+class _DrvCommentOnly:
+    params = _drv_params(comment_node=NodeK, line_node=NodeK)
+    instances = _DRV_INSTANCES
+    raises = _ANY_DEFINITION_ERROR
+
+    def pre(s):
+        return {"inv": INV(s.pr, ghost_of(s)), "the-line-is-not-empty": NOT(EQ(s.line_node.text, ""))}
+
+    def post(s):
+        g = ghost_of(s)
+        t = strip_marker(s.comment_node.text)
+        g2 = _upd(g, doc=ITE(g.open, join_doc(g.doc, t), g.doc), hdr=ITE(g.hdr_open, join_doc(g.hdr, t), g.hdr))
+        out = inv_clauses(s.pr, g2)
+        out["nothing-committed"] = builder_unchanged(B(s.pr), B(s.old_pr))
+        return out
+
+
+def _attr_line_post(s, tag, T, name, value):
+    g = ghost_of(s)
+    g2 = _upd(g, open=True, tag=tag, T=T, name=name, value=value, doc=_doc_of_line_comment(s), hdr_open=False,
+              count=g.count + 1)
+    out = inv_clauses(s.pr, g2)
+    out.update(closing_clauses(s, g))
+    return out
+
+
+def _attr_line_pre(s, *name_nodes):
+    out = {"inv": INV(s.pr, ghost_of(s)), "the-line-is-not-empty": NOT(EQ(s.line_node.text, ""))}
+    for i, n in enumerate(name_nodes):
+        out["identifier-%d-not-empty" % i] = NOT(EQ(n.text, ""))
+    return out
+
+
+@contract(DRV + "line_field", props=P)
+class _DrvField:
+    params = _drv_params(type_has_identifier=Bool, type_identifier_node=NodeK, field_type=ObjOf(SERIALIZABLE),
+                         name_node=NodeK, stmt_node=NodeK, has_comment=Bool, comment_node=NodeK, line_node=NodeK)
+    instances = _DRV_INSTANCES
+    raises = _ANY_DEFINITION_ERROR
+
+    def pre(s):
+        return _attr_line_pre(s, s.name_node, s.type_identifier_node)
+
+    def post(s):
+        return _attr_line_post(s, T_FIELD, s.field_type, s.name_node.text, None)
+
+
+@contract(DRV + "line_constant", props=P)
+class _DrvConstant:
+    params = _drv_params(type_has_identifier=Bool, type_identifier_node=NodeK, constant_type=ObjOf(SERIALIZABLE),
+                         name_node=NodeK, expr_has_identifier=Bool, expr_identifier_node=NodeK, value=ObjOf(ANY),
+                         stmt_node=NodeK, has_comment=Bool, comment_node=NodeK, line_node=NodeK)
+    instances = _DRV_INSTANCES
+    raises = _ANY_DEFINITION_ERROR
+
+    def pre(s):
+        return _attr_line_pre(s, s.name_node, s.type_identifier_node, s.expr_identifier_node)
+
+    def post(s):
+        return _attr_line_post(s, T_CONST, s.constant_type, s.name_node.text, s.value)
+
+
+@contract(DRV + "line_padding", props=P)
+class _DrvPadding:
+    params = _drv_params(void_type=ObjOf(VOID_T), stmt_node=NodeK, has_comment=Bool, comment_node=NodeK, line_node=NodeK)
+    instances = _DRV_INSTANCES
+    raises = _ANY_DEFINITION_ERROR
+
+    def pre(s):
+        return _attr_line_pre(s)
+
+    def post(s):
+        return _attr_line_post(s, T_PAD, s.void_type, "", None)
+
+
+def _drv_dir_instances():
+    out = []
+    for inst in _DRV_INSTANCES():
+        for n in DIRECTIVE_NAMES + [_OtherName()]:
+            d = dict(inst)
+            d["name"] = n
+            out.append(d)
+    return out
+
+
+def _directive_line_post(s):
+    g = ghost_of(s)
+    out = inv_clauses(s.pr, _upd(g, open=False, hdr_open=False))
+    out.update(closing_clauses(s, g, flags_kept=False))
+    return out
+
+
+@contract(DRV + "line_directive_with_expression", props=P)
+class _DrvDirectiveWith:
+    params = _drv_params(name=Str, name_node=NodeK, expr_has_identifier=Bool, expr_identifier_node=NodeK, value=ObjOf(ANY),
+                         stmt_node=NodeK, has_comment=Bool, comment_node=NodeK, line_node=NodeK)
+    instances = _drv_dir_instances
+    raises = _ANY_DEFINITION_ERROR
+
+    def pre(s):
+        out = _attr_line_pre(s, s.name_node, s.expr_identifier_node)
+        out["name-is-the-identifier"] = EQ(s.name_node.text, s.name)
+        return out
+
+    def post(s):
+        return _directive_line_post(s)
+
+
+@contract(DRV + "line_directive_without_expression", props=P)
+class _DrvDirectiveWithout:
+    params = _drv_params(name=Str, name_node=NodeK, stmt_node=NodeK, has_comment=Bool, comment_node=NodeK, line_node=NodeK)
+    instances = _drv_dir_instances
+    raises = _ANY_DEFINITION_ERROR
+
+    def pre(s):
+        out = _attr_line_pre(s, s.name_node)
+        out["name-is-the-identifier"] = EQ(s.name_node.text, s.name)
+        return out
+
+    def post(s):
+        return _directive_line_post(s)
+
+
+@contract(DRV + "line_service_response_marker", props=P)
+class _DrvMarker:
+    params = _drv_params(stmt_node=NodeK, has_comment=Bool, comment_node=NodeK, line_node=NodeK)
+    instances = _DRV_INSTANCES
+    raises = _ANY_DEFINITION_ERROR
+
+    def pre(s):
+        return _attr_line_pre(s)
+
+    def post(s):
+        g = ghost_of(s)
+        # a new section begins: its header window is open (a comment on the marker line is its first header line)
+        out = inv_clauses(s.pr, _upd(g, open=False, hdr_open=True, hdr=_doc_of_line_comment(s)))
+        out.update(closing_clauses(s, g, marker=True))
+        out["response-section-empty"] = dsb_is_empty(SECS(B(s.pr))[-1])
+        return out
+
+
+@contract(DRV + "end_of_line", props=P17)
+class _DrvEOL:
+    params = _drv_params(node=NodeK)
+    instances = _DRV_INSTANCES
+
+    def pre(s):
+        return {"inv": INV(s.pr, ghost_of(s))}
+
+    def post(s):
+        g = ghost_of(s)
+        out = inv_clauses(s.pr, _upd(g, eol=g.eol + 1))
+        out["nothing-committed"] = builder_unchanged(B(s.pr), B(s.old_pr))
+        return out
+
+
+@contract(DRV + "end_of_input", props=P)
+class _DrvEndOfInput:
+    """REQUIRED by the property ("each field, padding and constant statement appears exactly once ... every way the text
+    can end"): when the traversal is over, no attribute statement is left pending and the open doc window is closed."""
+    params = _drv_params(definition_node=NodeK)
+    instances = _DRV_INSTANCES
+    raises = _ANY_DEFINITION_ERROR
+
+    def pre(s):
+        return {"inv": INV(s.pr, ghost_of(s))}
+
+    def post(s):
+        g = ghost_of(s)
+        out = {"no-pending-attribute": NO_PENDING(B(s.pr)),
+               "every-statement-committed-once": total_committed(B(s.pr)) == g.count}
+        out.update(closing_clauses(s, g))
+        del out["closed:header-doc-attached"]  # a definition that ends inside its header block has no attributes
+        del out["closed:section-doc-kept"]
+        return out
 
 
 # ------------------------------------------------------------------------------------------------ native harness
